@@ -264,6 +264,77 @@ AREAS = [
                   'NotificationReasonSuppressed': ('(fun xt => src_checkable_notification_reason_suppressed xt reachable in_downtime acknowledged)', ['Z'], 'bool'),
                   'NotificationReasonApplies': ('(fun xt => src_checkable_notification_reason_applies xt is_host has_cr cr_state flapping)', ['Z'], 'bool')}),
     ]),
+    # ---------------------------------------------------------------------------------------- round 2: C03 BeginExecuteNotification regions, reminder conditions
+    dict(area='begin', requires=['Icv.Facts.Facts_enums', 'Icv.Src.XlPrelude', 'Icv.Facts.Facts_fn_notif'], items=[
+        dict(glue='begin_events', props=['C03'], deps=[], doc='effects of BeginExecuteNotification other than attribute writes: GetNotifiedProblemUsers()->Clear(), UpdateNotificationNumber()',
+             text='Inductive xb_ev := XbClearNpu | XbNumber.\n'),
+        # the notification-level filters: `if (!force) { period / times window / type filter / state filter } else { log }`;
+        # result = (left by `return`?, suppressed_notifications, next_notification, no_more_notifications, events)
+        dict(name='begin_gate', func='Notification::BeginExecuteNotification', file='lib/icinga/notification.cpp', props=['C03'],
+             region=(r'if\s*\(\s*!force\s*\)\s*\{', r'\{\s*ObjectLock\s+olock\s*\(this\);\s*UpdateNotificationNumber'), region_exit=True, outputs=[],
+             inputs=[('type', 'Z'), ('force', 'bool'), ('reminder', 'bool'), ('has_period', 'bool'), ('period_inside', 'bool'), ('now', 'Z'),
+                     ('has_times', 'bool'), ('begin_set', 'bool'), ('begin_v', 'Z'), ('end_set', 'bool'), ('end_v', 'Z'), ('lhsc', 'Z'),
+                     ('type_filter', 'Z'), ('interval', 'Z'), ('is_svc', 'bool'), ('state', 'Z'), ('state_filter', 'Z'),
+                     ('supp0', 'Z'), ('next0', 'Z'), ('nomore0', 'bool')],
+             ret='void', rcoq='bool * Z * Z * bool * list xb_ev', dummy='(false, 0, 0, false, nil)',
+             params={'type': Zb('type'), 'force': Bb('force'), 'reminder': Bb('reminder')},
+             aliases={'checkable': 'GetCheckable()'}, symbolic_types=['Value'],
+             state=[('$supp', 'supp0', 'Z'), ('$next', 'next0', 'Z'), ('$nomore', 'nomore0', 'bool'), ('$events', '(@nil xb_ev)', 'list xb_ev')],
+             getters={'GetSuppressedNotifications()': '$supp'},
+             setters={'SetSuppressedNotifications': '$supp', 'SetNextNotification': '$next', 'SetNoMoreNotifications': '$nomore'},
+             emits={'GetNotifiedProblemUsers()->Clear': ('$events', 'XbClearNpu', [])},
+             stmts={'tie(host,service)=GetHostService(GetCheckable())': {'host': 'HOST', 'service': 'SVC'}},
+             bind={'GetPeriod()': ('has_period', 'ptr'), 'GetPeriod()->IsInside(Utility::GetTime())': Bb('period_inside'),
+                   'Utility::GetTime()': Zb('now'), 'GetTimes()': ('has_times', 'ptr'),
+                   'GetTimes()->Get("begin")!=Empty': Bb('begin_set'), 'GetTimes()->Get("begin")': Zb('begin_v'),
+                   'GetTimes()->Get("end")!=Empty': Bb('end_set'), 'GetTimes()->Get("end")': Zb('end_v'),
+                   'GetCheckable()->GetLastHardStateChange()': Zb('lhsc'),
+                   'GetTypeFilter()': Zb('type_filter'), 'GetInterval()': Zb('interval'), 'GetStateFilter()': Zb('state_filter'),
+                   'SVC': ('is_svc', 'ptr'), 'SVC->GetState()': Zb('state'), 'HOST->GetState()': Zb('state')},
+             fns={'ServiceStateToFilter': ('src_service_state_to_filter', ['Z'], 'Z'), 'HostStateToFilter': ('src_host_state_to_filter', ['Z'], 'Z')}),
+        # the bookkeeping block under the lock (notification number, last/next notification, no_more_notifications)
+        dict(name='begin_bookkeeping', func='Notification::BeginExecuteNotification', file='lib/icinga/notification.cpp', props=['C03'],
+             region=(r'\{\s*ObjectLock\s+olock\s*\(this\);\s*UpdateNotificationNumber', r'std::set<User::Ptr>\s+allUsers\s*;'), outputs=[],
+             inputs=[('type', 'Z'), ('now', 'Z'), ('interval', 'Z'), ('next0', 'Z'), ('nomore0', 'bool'), ('last0', 'Z'), ('lastp0', 'Z')],
+             ret='void', dummy='(0, false, 0, 0, nil)',
+             params={'type': Zb('type')},
+             state=[('$next', 'next0', 'Z'), ('$nomore', 'nomore0', 'bool'), ('$last', 'last0', 'Z'), ('$lastp', 'lastp0', 'Z'), ('$events', '(@nil xb_ev)', 'list xb_ev')],
+             setters={'SetNextNotification': '$next', 'SetNoMoreNotifications': '$nomore', 'SetLastNotification': '$last', 'SetLastProblemNotification': '$lastp'},
+             emits={'UpdateNotificationNumber': ('$events', 'XbNumber', [])},
+             bind={'Utility::GetTime()': Zb('now'), 'GetInterval()': Zb('interval')}),
+        # one iteration of the per-user loop up to the point where the command is queued: left by `continue` = the user is skipped
+        dict(name='begin_user_skipped', func='Notification::BeginExecuteNotification', file='lib/icinga/notification.cpp', props=['C03'],
+             region=(r'if\s*\(\s*!user->GetEnableNotifications\(\)\s*\)', r'Log\(LogInformation,\s*"Notification"\)\s*<<\s*"Sending "'), region_exit=True, outputs=[],
+             inputs=[('type', 'Z'), ('force', 'bool'), ('reminder', 'bool'), ('u_enable', 'bool'), ('u_has_period', 'bool'), ('u_period_inside', 'bool'),
+                     ('u_type_filter', 'Z'), ('is_svc', 'bool'), ('state', 'Z'), ('u_state_filter', 'Z'), ('was_notified', 'bool'), ('volatile', 'bool'),
+                     ('last_notified_state', 'Z')],
+             ret='void', rcoq='bool', dummy='false',
+             params={'type': Zb('type'), 'force': Bb('force'), 'reminder': Bb('reminder')},
+             aliases={'checkable': 'GetCheckable()', 'user': 'user', 'userName': 'user->GetName()', 'notifiedProblemUsers': 'GetNotifiedProblemUsers()'},
+             stmts={'auto[host,service]=GetHostService(GetCheckable())': {'host': 'HOST', 'service': 'SVC'}},
+             bind={'user->GetEnableNotifications()': Bb('u_enable'), 'user->GetTypeFilter()': Zb('u_type_filter'),
+                   'GetNotifiedProblemUsers()->Contains(user->GetName())': Bb('was_notified'),
+                   'GetCheckable()->GetVolatile()': Bb('volatile'),
+                   'SVC': ('is_svc', 'ptr'), 'SVC->GetState()': Zb('state'), 'HOST->GetState()': Zb('state'),
+                   'GetLastNotifiedStatePerUser()->Get(user->GetName())': Zb('last_notified_state')},
+             fns={'CheckNotificationUserFilters': ('(fun xt xf xr => src_notification_check_user_filters xt xf xr u_has_period u_period_inside u_type_filter is_svc state u_state_filter)',
+                                                   ['Z', None, 'bool', 'bool'], 'bool')}),
+        # the reminder part of NotificationComponent::NotificationTimerHandler: left by `continue` = no reminder is sent
+        dict(name='timer_reminder_skipped', func='NotificationComponent::NotificationTimerHandler', file='lib/notification/notificationcomponent.cpp', props=['C03'],
+             region=(r'if\s*\(\s*notification->GetInterval\(\)\s*<=\s*0', r'try\s*\{'), region_exit=True, outputs=[],
+             inputs=[('now', 'Z'), ('now2', 'Z'), ('interval', 'Z'), ('nomore', 'bool'), ('next0', 'Z'), ('state_type', 'Z'), ('is_svc', 'bool'), ('state', 'Z'),
+                     ('ck_supp', 'Z'), ('nf_supp', 'Z'), ('reachable', 'bool'), ('in_downtime', 'bool'), ('acknowledged', 'bool'), ('flapping', 'bool')],
+             ret='void', rcoq='bool * Z', dummy='(false, 0)',
+             locals={'now': Zb('now'), 'reachable': Bb('reachable')},
+             aliases={'notification': 'notification', 'checkable': 'CK'},
+             state=[('$next', 'next0', 'Z')], getters={'notification->GetNextNotification()': '$next'}, setters={'notification->SetNextNotification': '$next'},
+             stmts={'tie(host,service)=GetHostService(CK)': {'host': 'HOST', 'service': 'SVC'}},
+             bind={'notification->GetInterval()': Zb('interval'), 'notification->GetNoMoreNotifications()': Bb('nomore'),
+                   'Utility::GetTime()': Zb('now2'), 'CK->GetStateType()': Zb('state_type'),
+                   'SVC': ('is_svc', 'ptr'), 'SVC->GetState()': Zb('state'), 'HOST->GetState()': Zb('state'),
+                   'CK->GetSuppressedNotifications()': Zb('ck_supp'), 'notification->GetSuppressedNotifications()': Zb('nf_supp'),
+                   'CK->IsInDowntime()': Bb('in_downtime'), 'CK->IsAcknowledged()': Bb('acknowledged'), 'CK->IsFlapping()': Bb('flapping')}),
+    ]),
     # ---------------------------------------------------------------------------------------- C18 (tracked, outside the subset today)
     dict(area='perm', requires=['Icv.Src.XlPrelude'], items=[
         # builds Expression objects with `new`, writes through an out-parameter: not translatable; listed so that the evidence
